@@ -60,7 +60,7 @@ def boot(machine, config='config.yaml', platform='virtual', fake_game=False, moc
          machine_dir=None, options=None):
     """Boot a machine from /verif/machines/<machine> (or an absolute machine_dir). Returns the harness."""
     cls = _HG if fake_game else _H
-    h = cls()
+    h = cls('runTest')
     h._machine_dir = machine_dir or os.path.join(VERIF, 'machines', machine)
     h._config_file = config
     h._platform = platform
@@ -102,7 +102,7 @@ class _Guard:
             signal.signal(signal.SIGALRM, old)
 
 
-def pmap(fn, items, nproc=None, chunk=1, item_timeout=120):
+def pmap(fn, items, nproc=None, chunk=1, item_timeout=600):
     """Parallel map with forked workers (each boots its own machines)."""
     items = list(items)
     if item_timeout:
